@@ -180,6 +180,16 @@ def make_judges(ctx):
             ctx.floor_hit(('transpose_axes',))
         if fcls in ('<0', '>w'):
             ctx.floor_hit(('edge_format', cname))
+        if cname in ('dot', 'matmul', 'sum', 'trace', 'cumsum') and not bad:
+            # accumulated raw results that a narrower accumulator (float16: 11 bits, float32: 24 bits) could not hold exactly
+            for k in res.codes:
+                m = abs(k)
+                if m:
+                    span = m.bit_length() - ((m & -m).bit_length() - 1)     # significant bits of the code
+                    if span > 24:
+                        ctx.floor_hit(('acc_significant_bits>24', 'dot' if cname in ('dot', 'matmul') else 'sum'))
+                    if span > 11:
+                        ctx.floor_hit(('acc_significant_bits>11', 'dot' if cname in ('dot', 'matmul') else 'sum'))
         nontriv = ecls != 'random' or len(x.codes) % 2 == 1 or axk != 'none'
         sample = None
         if ctx.want_sample() and nontriv and cname in ACCUM:
@@ -196,6 +206,7 @@ def floors(tier):
     cells += [('clip_bounds', b) for b in ('float/float', 'ndarray/ndarray', 'list/list', 'Fxp/Fxp', 'float/none', 'none/float')]
     cells += [('clip_bounds_other_format',)]
     cells += [('edge_format', f) for f in ('sum', 'cumsum', 'prod', 'cumprod', 'dot', 'clip', 'max', 'sort')]
+    cells += [('acc_significant_bits>24', 'dot'), ('acc_significant_bits>11', 'dot'), ('acc_significant_bits>11', 'sum')]
     return cells
 
 
@@ -206,6 +217,8 @@ def cases(tier, seed):
     n = 1600 if tier == 'quick' else 40000
     for i in range(n):
         yield {'k': 'arr', 'i': i}
+    for i in range(320 if tier == 'quick' else 8000):
+        yield {'k': 'acc', 'i': i}
 
 
 def _try(f):
@@ -215,7 +228,57 @@ def _try(f):
         return None
 
 
+ACC_SHAPES = [((8,), (8,)), ((7,), (7,)), ((5,), (5,)), ((3,), (3,)), ((3, 3), (3, 3)), ((2, 3), (3, 2)), ((3, 3), (3,)), ((1, 3), (3, 3)), ((3,), (3, 3)), ((2, 2), (2, 2))]
+
+
+def run_acc(case, ctx):
+    """accumulation at the widest operands of the quantifier (words 9..12, up to length 8 / 3x3), codes at and next to the extremes: the exact
+    sums of products need up to 28 significant bits - more than a float32 (24) or float16 (11) accumulator holds"""
+    Fxp = ctx.mon.Fxp
+    fm = ctx.mon.fxpmath
+    i = case['i']
+    rng = ctx.rng_for('acc', i)
+    shp1, shp2 = ACC_SHAPES[i % len(ACC_SHAPES)]
+    s1, s2 = bool((i // 10) % 2), bool((i // 20) % 2)
+    w1, w2 = rng.choice([12, 12, 11, 10, 9]), rng.choice([12, 12, 11, 10, 9])
+    nf1, nf2 = rng.randint(0, w1), rng.randint(0, w2)
+    style = ('hi', 'lo', 'near', 'mixed', 'random')[(i // 40) % 5]
+
+    def codes(s, w, n):
+        lo, hi = R.code_range(s, w)
+        if style == 'hi':
+            return [hi] * n
+        if style == 'lo':
+            return [lo if s else hi - 1] * n
+        if style == 'near':
+            return [rng.choice([hi - rng.randint(0, 5), (lo + rng.randint(0, 5)) if s else hi - rng.randint(0, 9)]) for _ in range(n)]
+        if style == 'mixed':
+            return [rng.choice([lo, hi, hi - 1, lo + 1]) for _ in range(n)]
+        return [rng.randint(lo, hi) for _ in range(n)]
+    x = Fxp(np.array(codes(s1, w1, int(np.prod(shp1)))).reshape(shp1), s1, w1, nf1, raw=True)
+    z = Fxp(np.array(codes(s2, w2, int(np.prod(shp2)))).reshape(shp2), s2, w2, nf2, raw=True)
+    if i % 3 == 2:
+        x = G.historied(Fxp, x, rng)[0]
+    _try(lambda: np.dot(x, z))
+    _try(lambda: x.dot(z))
+    _try(lambda: fm.dot(x, z))
+    _try(lambda: np.dot(z.T, x.T) if len(shp1) == 2 and len(shp2) == 2 else None)
+    if len(shp1) == 2 or len(shp2) == 2:
+        _try(lambda: np.matmul(x, z))
+    for o in (x, z):
+        _try(lambda: np.sum(o))
+        _try(lambda: o.sum())
+        _try(lambda: np.cumsum(o))
+        if len(o.shape) == 2:
+            _try(lambda: np.sum(o, axis=0))
+            _try(lambda: o.sum(axis=1))
+            _try(lambda: np.trace(o))
+            _try(lambda: o.trace())
+
+
 def run_case(case, ctx):
+    if case.get('k') == 'acc':
+        return run_acc(case, ctx)
     Fxp = ctx.mon.Fxp
     fm = ctx.mon.fxpmath
     rng = ctx.rng_for('arr', case['i'])
